@@ -9,7 +9,7 @@ FINGERPRINTS = ['exporter.Exporter.export_string', 'exporter.Exporter.export_opt
 RULE = ('generated **kern-only documents (1-4 spines, with/without opening barline, pickup, final barline, nested splits; quick 30 / thorough 300) '
         'x EVERY pair 1 <= a <= b <= M plus out-of-range pairs (a < 0, b > M, b < a): the data lines of the range export are compared with the data '
         'lines of the full export lying in measures a..b (measure boundaries computed from the abstract document), the bounding barlines are checked, '
-        'the single-measure exports are checked to partition the data lines, iteration yields 1..M, and every export is compared with the model; '
+        'the single-measure exports are checked to partition the data lines, iteration yields 1..M (also nested, interleaved and partly consumed iterations), and every export is compared with the model; '
         'non-trivial = M >= 2 and a range that is not the whole score; distinct = (document, a, b)')
 ASSUMPTIONS = ['a data line is a line none of whose cells starts with * = or !']
 
@@ -89,6 +89,25 @@ def explore(ctx, depth):
         it = call(lambda: list(case.doc))
         if M >= 1 and it != {'ok': list(range(1, M + 1))}:
             ctx.fail({'text': case.text, 'clause': 'iteration'}, 'iterating the document does not yield 1..M', impl=it, expected=list(range(1, M + 1)))
+        elif M >= 1:
+            # every iteration yields 1..M on its own: repeated, nested, interleaved and partly consumed iterations (the way all pairs a <= b are enumerated)
+            def iterations():
+                d = case.doc
+                nested = [(a, b) for a in d for b in d]
+                zipped = list(zip(d, d))
+                i1 = iter(d)
+                first = next(i1)
+                again = list(d)
+                rest = list(i1)
+                return {'nested': nested, 'zipped': zipped, 'first': first, 'again': again, 'rest': rest, 'twice': [list(d), list(d)]}
+            rng_ = list(range(1, M + 1))
+            exp_it = {'ok': {'nested': [(a, b) for a in rng_ for b in rng_], 'zipped': [(a, a) for a in rng_], 'first': 1, 'again': rng_, 'rest': rng_[1:],
+                             'twice': [rng_, rng_]}}
+            got_it = call(iterations)
+            ctx.seen({'text': case.text, 'clause': 'independent iterations'}, M >= 2)
+            if got_it != exp_it:
+                ctx.fail({'text': case.text, 'clause': 'independent iterations'},
+                         'nested / interleaved / partly consumed iterations of one document do not each yield 1..M', impl=got_it, expected=exp_it['ok'])
         full = spec_lines(case.adoc, '_v')
         stops = starts[1:] + [len(case.adoc['rows'])]
         singles = {}
